@@ -8,6 +8,25 @@ use std::pin::Pin;
 use std::time::Duration;
 use tokio::time::{sleep, Sleep};
 
+/// Margin between the negotiated session interval and the local timer
+const MARGIN: Duration = Duration::from_secs(10);
+
+/// Returns how long to wait after a session refresh until the local timer fires
+///
+/// The refresher must act before the session interval has passed: `MARGIN` earlier, or after
+/// half the interval when it is too short for that. The other side gives the refresher `MARGIN`
+/// of grace before it terminates the session. Calculated as `Duration` since neither
+/// `delta_secs - 10` nor `delta_secs + 10` fit into an `u32` for every `delta_secs`.
+fn local_delay(delta_secs: u32, local_is_refresher: bool) -> Duration {
+    let interval = Duration::from_secs(delta_secs.into());
+
+    if local_is_refresher {
+        interval - MARGIN.min(interval / 2)
+    } else {
+        interval + MARGIN
+    }
+}
+
 /// Config of the `timer` extension used by the acceptor
 pub struct AcceptorTimerConfig {
     pub refresher: Refresher,
@@ -38,17 +57,17 @@ impl AcceptorTimerConfig {
             self.interval_secs
         };
 
-        let real_delta_secs;
+        let real_delta;
 
         // Map unspecified -> Uac as usually if none is specified
         // the UAC side is responsible for refreshes
         self.refresher = match self.refresher {
             Refresher::Uas => {
-                real_delta_secs = delta_secs - 10;
+                real_delta = local_delay(delta_secs, true);
                 Refresher::Uas
             }
             Refresher::Unspecified | Refresher::Uac => {
-                real_delta_secs = delta_secs + 10;
+                real_delta = local_delay(delta_secs, false);
                 Refresher::Uac
             }
         };
@@ -59,11 +78,11 @@ impl AcceptorTimerConfig {
             refresher: self.refresher,
         });
 
-        let sleep = sleep(Duration::from_secs(real_delta_secs as u64));
+        let sleep = sleep(real_delta);
 
         SessionTimer {
             refresher: self.refresher,
-            real_delta_secs,
+            real_delta,
             interval: RefreshInterval::Sleeping(Box::pin(sleep)),
         }
     }
@@ -98,26 +117,26 @@ impl InitiatorTimerConfig {
             .try_get_named::<SessionExpires>()
             .transpose()?
         {
-            let real_delta_secs;
+            let real_delta;
 
             // This is the UAC side: if the UAS refreshes wait 10 seconds longer than the
             // session interval before terminating, if we refresh do so before it expires
             let refresher = match se.refresher {
                 Refresher::Uas => {
-                    real_delta_secs = se.delta_secs + 10;
+                    real_delta = local_delay(se.delta_secs, false);
                     Refresher::Uas
                 }
                 Refresher::Unspecified | Refresher::Uac => {
-                    real_delta_secs = se.delta_secs - 10;
+                    real_delta = local_delay(se.delta_secs, true);
                     Refresher::Uac
                 }
             };
 
-            let sleep = sleep(Duration::from_secs(real_delta_secs as u64));
+            let sleep = sleep(real_delta);
 
             Ok(SessionTimer {
                 refresher,
-                real_delta_secs,
+                real_delta,
                 interval: RefreshInterval::Sleeping(Box::pin(sleep)),
             })
         } else {
@@ -131,7 +150,7 @@ impl InitiatorTimerConfig {
 #[derive(Debug)]
 pub struct SessionTimer {
     pub refresher: Refresher,
-    pub real_delta_secs: u32,
+    pub real_delta: Duration,
     pub interval: RefreshInterval,
 }
 
@@ -141,7 +160,7 @@ impl SessionTimer {
     pub fn new_unsupported() -> Self {
         Self {
             refresher: Refresher::Unspecified,
-            real_delta_secs: 0,
+            real_delta: Duration::ZERO,
             interval: RefreshInterval::Unsupported,
         }
     }
@@ -159,7 +178,7 @@ impl SessionTimer {
         match &mut self.interval {
             RefreshInterval::Unsupported => {}
             RefreshInterval::Sleeping(sleep_) => {
-                sleep_.set(sleep(Duration::from_secs(self.real_delta_secs as u64)))
+                sleep_.set(sleep(self.real_delta))
             }
         }
     }
